@@ -18,6 +18,7 @@ import (
 	"errors"
 	"fmt"
 	"os"
+	"runtime"
 	"sort"
 	"strconv"
 	"sync"
@@ -45,6 +46,14 @@ func init() {
 			rt.Emit(replayX03d(in.N, in.Beh))
 			rt.Flush()
 		})
+		rt.Flush()
+		os.Exit(0)
+	}
+	if len(os.Args) > 3 && os.Args[1] == "record-x03d" {
+		srv.VerifHook = hook
+		n, _ := strconv.Atoi(os.Args[2])
+		seed, _ := strconv.Atoi(os.Args[3])
+		recordX03d(n, int64(seed))
 		rt.Flush()
 		os.Exit(0)
 	}
@@ -125,8 +134,9 @@ type d3world struct {
 	rctx    []context.Context // context of base run i+1
 	done    []bool            // base run i+1 has returned
 	sut     *srv.Service
-	late    bool // a burst was followed by one more base run (coverage only)
-	optkept bool // a Wait reported an error the spec leaves open (coverage only)
+	auto    func(n int, ctx context.Context) string // record mode: the base run decides by itself when and how to return
+	late    bool                                    // a burst was followed by one more base run (coverage only)
+	optkept bool                                    // a Wait reported an error the spec leaves open (coverage only)
 }
 
 func (w *d3world) tok(name string, cause error) error {
@@ -152,9 +162,11 @@ func (w *d3world) run(ctx context.Context) error {
 	w.rctx = append(w.rctx, ctx)
 	w.done = append(w.done, false)
 	w.mu.Unlock()
-	w.rec.Log(rt.Event{"ev": "cb_enter", "fn": "run", "n": n})
+	w.rec.Log(rt.Event{"ev": "cb_enter", "fn": "run", "n": n, "argnil": 0})
 	var k string
-	if w.cfg.Mode == "ctx" {
+	if w.auto != nil {
+		k = w.auto(n, ctx)
+	} else if w.cfg.Mode == "ctx" {
 		select {
 		case k = <-w.rel:
 		case <-ctx.Done():
@@ -190,7 +202,8 @@ func (w *d3world) phase(name, kind string) func() error {
 	up := map[string]string{"shut": "Shut", "clean": "Clean"}[name]
 	return func() error {
 		w.cnt[name].Add(1)
-		w.rec.Log(rt.Event{"ev": "cb_enter", "fn": name})
+		w.rec.Log(rt.Event{"ev": "cb_enter", "fn": name, "n": 0, "argnil": 0})
+		w.rec.Log(rt.Event{"ev": "cb_exit", "fn": name, "n": 0, "out": kind})
 		switch kind {
 		case "error":
 			return w.tok("e"+up, nil)
@@ -205,10 +218,12 @@ func newD3World(cfg d3cfg) *d3world {
 	w := &d3world{cfg: cfg, rec: &rt.Recorder{}, rel: make(chan string), toks: map[string]error{},
 		cnt: map[string]*atomic.Int64{"shut": {}, "clean": {}, "eh": {}}}
 	w.ctx, w.cancel = context.WithCancel(context.Background())
+	w.rec.Log(rt.Event{"ev": "cfg", "mode": cfg.Mode, "pace": cfg.Pace, "shut": cfg.Shut, "clean": cfg.Clean, "eh": cfg.Eh, "ctxout": cfg.Ctxout})
 	base := &srv.Service{Name: "base", Run: w.run, Shutdown: w.phase("shut", cfg.Shut), Cleanup: w.phase("clean", cfg.Clean)}
 	eh := func(err error) {
 		w.cnt["eh"].Add(1)
-		w.rec.Log(rt.Event{"ev": "cb_enter", "fn": "eh", "argnil": b2i(err == nil)})
+		w.rec.Log(rt.Event{"ev": "cb_enter", "fn": "eh", "n": 0, "argnil": b2i(err == nil)})
+		w.rec.Log(rt.Event{"ev": "cb_exit", "fn": "eh", "n": 0, "out": "ok"})
 	}
 	if cfg.Eh == "ok" {
 		base.ErrorHandler.Set(eh)
@@ -286,6 +301,21 @@ func d3spin(n, k int) int {
 	return int(x>>8) % 30000
 }
 
+func (w *d3world) logRet(op, id string, r d3res) {
+	is := r.Is
+	if is == nil {
+		is = []string{}
+	}
+	w.rec.Log(rt.Event{"ev": "ret", "op": op, "id": id, "res": r.K, "is": is, "pan": b2i(r.Pan), "nil": b2i(r.Nil)})
+}
+
+// stop cancels the parent context, logged on both sides (DaemonTrace: stopBegun / stopDone)
+func (w *d3world) stop() {
+	w.rec.Log(rt.Event{"ev": "act", "what": "cancel"})
+	w.cancel()
+	w.rec.Log(rt.Event{"ev": "act", "what": "cancelled"})
+}
+
 func d3fail(n, k int, what, msg string) map[string]any {
 	return failure(n, k, "daemon/"+what, msg)
 }
@@ -295,7 +325,7 @@ func replayX03d(n int, b d3beh) map[string]any {
 	ops := map[string]*rt.Op{}
 	seen := map[string]bool{}
 	teardown := func() {
-		w.cancel()
+		w.stop()
 		w.sut.Close()
 		// let every base run that is (or gets) in progress return
 		for i := 0; i < 50; i++ {
@@ -318,7 +348,7 @@ func replayX03d(n int, b d3beh) map[string]any {
 		ops[id] = rt.Start(0, func() any {
 			w.rec.Log(rt.Event{"ev": "call", "op": op, "id": id})
 			r := fn()
-			w.rec.Log(rt.Event{"ev": "ret", "op": op, "id": id, "res": r.K})
+			w.logRet(op, id, r)
 			return r
 		})
 	}
@@ -332,8 +362,7 @@ func replayX03d(n int, b d3beh) map[string]any {
 				return d3res{K: "nil"}
 			})
 		case "cancel":
-			w.rec.Log(rt.Event{"ev": "act", "what": "cancel"})
-			w.cancel()
+			w.stop()
 		case "close":
 			call(st.ID, "close", func() d3res { w.sut.Close(); return d3res{K: "done"} })
 		case "finish":
@@ -356,8 +385,7 @@ func replayX03d(n int, b d3beh) map[string]any {
 			for i, m := 0, d3spin(n, k); i < m; i++ {
 				d3sink.Add(1)
 			}
-			w.rec.Log(rt.Event{"ev": "act", "what": "cancel"})
-			w.cancel()
+			w.stop()
 		case "drain":
 			// every base run in progress is let return (ok) until none is
 			for i := 0; ; i++ {
@@ -421,6 +449,7 @@ func replayX03d(n int, b d3beh) map[string]any {
 	if w.enter.Load() != w.exit.Load() {
 		return res(d3fail(n, len(b.Steps), "base-run-in-progress", "a base run is still in progress after shutdown"))
 	}
+	w.rec.Log(rt.Event{"ev": "end", "complete": 1})
 	return map[string]any{"n": n, "ok": true, "steps": len(b.Steps), "late": w.late, "optkept": w.optkept, "hist": w.rec.Events()}
 }
 
@@ -434,8 +463,11 @@ func (w *d3world) compare(n, k int, st d3step, ops map[string]*rt.Op, seen map[s
 		return m, false
 	}
 	trunc := false
-	// counts first: a restart that has not happened yet explains everything else
-	for _, c := range st.Exp.Cnt {
+	// base runs first (a restart that has not happened yet explains everything else), then the other counts
+	prio := map[string]int{"run": 0, "inflight": 1, "shut": 2, "clean": 3, "eh": 4}
+	cnts := append([]d3cnt(nil), st.Exp.Cnt...)
+	sort.Slice(cnts, func(i, j int) bool { return prio[cnts[i].ID] < prio[cnts[j].ID] })
+	for _, c := range cnts {
 		var got int
 		if c.ID == "run" {
 			got = int(w.enter.Load())
@@ -547,4 +579,113 @@ func (w *d3world) compare(n, k int, st d3step, ops map[string]*rt.Op, seen map[s
 		seen[e.ID] = true
 	}
 	return nil, false
+}
+
+// recordX03d produces n free-running histories for spec/srv/DaemonTrace.tla: the base runs return by
+// themselves after a random number of yields with a random outcome (a ctx-mode run also when its
+// context ends); Wait, Close and cancel come from other goroutines at random moments.  Nothing is
+// judged here.
+func recordX03d(n int, seed int64) {
+	rng := rt.NewRand(seed)
+	kinds := []string{"ok", "ok", "ok", "error", "error", "error", "error", "canceled", "deadline", "panic"}
+	abs3 := []string{"absent", "ok", "error", "panic"}
+	for i := 0; i < n; i++ {
+		runtime.GOMAXPROCS(1 + rng.Intn(6))
+		cfg := d3cfg{Mode: []string{"gate", "ctx"}[rng.Intn(2)], Pace: "zero", Shut: abs3[rng.Intn(4)], Clean: abs3[rng.Intn(4)],
+			Eh: []string{"absent", "ok", "late"}[rng.Intn(3)], Ctxout: []string{"ok", "error", "canceled"}[rng.Intn(3)]}
+		if rng.Intn(6) == 0 {
+			cfg.Pace = "never"
+		}
+		w := newD3World(cfg)
+		maxRuns := 2 + rng.Intn(7)
+		weight := 1 + rng.Intn(40)
+		stubborn := rng.Intn(3) == 0 // gate mode: a run in progress ignores the end of its context for a while
+		yr := rt.NewRand(rng.Int63())
+		w.auto = func(k int, ctx context.Context) string {
+			y := yr.Intn(weight * 4)
+			out := kinds[yr.Intn(len(kinds))]
+			if k >= maxRuns {
+				out = "canceled"
+			}
+			for ; y > 0; y-- {
+				runtime.Gosched()
+				if ctx.Err() != nil {
+					if cfg.Mode == "ctx" {
+						return cfg.Ctxout
+					}
+					if !stubborn {
+						break
+					}
+				}
+			}
+			return out
+		}
+		var sw sync.WaitGroup
+		launch := func(pre int, fn func()) {
+			sw.Add(1)
+			go func() {
+				defer sw.Done()
+				for ; pre > 0; pre-- {
+					runtime.Gosched()
+				}
+				fn()
+			}()
+		}
+		op := func(id, name string, fn func() d3res) func() {
+			return func() {
+				w.rec.Log(rt.Event{"ev": "call", "op": name, "id": id})
+				var r d3res
+				func() {
+					defer func() {
+						if p := recover(); p != nil {
+							r = d3res{K: "panic"}
+						}
+					}()
+					r = fn()
+				}()
+				w.logRet(name, id, r)
+			}
+		}
+		// Start first (a Wait before Start returned is not judged anyway), then everything else at random moments
+		op("s1", "start", func() d3res {
+			if err := w.sut.Start(w.ctx); err != nil {
+				return d3res{K: "err"}
+			}
+			return d3res{K: "nil"}
+		})()
+		horizon := weight * 4 * (1 + rng.Intn(maxRuns+2))
+		for x := 0; x < 1+rng.Intn(2); x++ {
+			id := fmt.Sprintf("w%d", x+1)
+			launch(rng.Intn(horizon), op(id, "wait", func() d3res { return w.classify(w.sut.Wait()) }))
+		}
+		switch rng.Intn(4) {
+		case 0:
+			launch(rng.Intn(horizon), w.stop)
+		case 1:
+			launch(rng.Intn(horizon), op("c1", "close", func() d3res { w.sut.Close(); return d3res{K: "done"} }))
+		case 2:
+			launch(rng.Intn(horizon), w.stop)
+			launch(rng.Intn(horizon), op("c1", "close", func() d3res { w.sut.Close(); return d3res{K: "done"} }))
+		}
+		done := make(chan struct{})
+		go func() { sw.Wait(); close(done) }()
+		// pace never or an early stop may leave a Wait blocked for good: stop the daemon once the scenario has had its time
+		_, qerr := rt.Quiesce()
+		select {
+		case <-done:
+		default:
+			w.stop()
+			<-done
+		}
+		_, qerr2 := rt.Quiesce()
+		complete := 1
+		if qerr != nil || qerr2 != nil {
+			complete = 0
+		}
+		// a last Wait after everything has ended: the daemon's final word
+		op("wf", "wait", func() d3res { return w.classify(w.sut.Wait()) })()
+		w.rec.Log(rt.Event{"ev": "end", "complete": complete})
+		rt.Emit(map[string]any{"hist": w.rec.Events()})
+		rt.Flush()
+	}
 }
